@@ -166,6 +166,10 @@ def run(w: World, rep: Report):
     # ---- R3 table agreement ----------------------------------------------------
     _table_agreement(w, rep)
 
+    from .report import depend
+    depend(rep, w, 'rules_c03', ('C03.R1', 'C03.R2', 'C03.R4'), 'C06.TD3',
+           'OP_CHECK_MULTISIG behaves as documented: false when a key is used more than once, true only with all m '
+           'confirmed, pair checks fed (sig, key) on the script\'s own stack (C03.R1/R2/R4 re-evaluated)', floor=6)
     rep.explanation = (
         'Decides only the clauses of C06 that are visible in the shape of the code: the RETURN '
         'scoping rules as an inductive invariant over all handlers that run sub-tapes (R1, R1b, '
